@@ -26,6 +26,7 @@ import (
 	"io"
 	"net"
 	"reflect"
+	"strconv"
 	"strings"
 
 	"github.com/Tnze/go-mc/level"
@@ -182,6 +183,9 @@ type result struct {
 }
 
 func (x result) line() string {
+	if x.class == "err" && x.val != "" {
+		return "err " + x.val // readers that return (n, err): the count that came with the error
+	}
 	if x.class != "ok" {
 		return x.class
 	}
@@ -200,6 +204,9 @@ func runOn(rd reader, s *src, byteReader bool) (res result) {
 	case pan != "":
 		return result{class: "panic", pan: pan}
 	case err != nil:
+		if strings.HasPrefix(val, "#") {
+			return result{class: "err", val: val[1:]}
+		}
 		return result{class: "err"}
 	}
 	return result{class: "ok", val: val, left: s.left()}
@@ -361,7 +368,17 @@ func checkReader(o *hx.Out, cat string, rd reader, data []byte, bounds []int) {
 		for _, k := range offsets {
 			ps := uniform(data[:k], cb.m)
 			got := runBoth(o, rd, data, ps, cb.tg, cb.term)
+			if sb.Len() > 0 {
+				sb.WriteByte(',')
+			}
 			sb.WriteByte(map[string]byte{"ok": 'O', "err": 'E', "panic": 'P'}[got.class])
+			if got.class == "err" && got.val != "" {
+				sb.WriteString(got.val)
+				// the count that comes with an error never exceeds what the source delivered
+				if n, e := strconv.Atoi(got.val); e != nil || n < 0 || n > k {
+					o.Fail("C09.count."+rd.name, "count %s returned with the error, but the source delivered %d bytes: input=%s piece=%d data+err=%v", got.val, k, clip(hx.Hex(data)), cb.m, cb.tg)
+				}
+			}
 			what := "eof"
 			if cb.term == "inj" {
 				what = "err"
@@ -516,13 +533,23 @@ func rdVarInt() reader {
 	return reader{name: "varint", spec: "vi", run: func(r io.Reader) (string, error) {
 		var v pk.VarInt
 		n, err := v.ReadFrom(r)
+		if err != nil {
+			return errCount(n), err
+		}
 		return fmt.Sprintf("%d %d", v, n), err
 	}}
 }
+
+// errCount marks the count a ReadFrom returned together with an error (compared like a value)
+func errCount(n int64) string { return fmt.Sprintf("#%d", n) }
+
 func rdVarLong() reader {
 	return reader{name: "varlong", spec: "vl", run: func(r io.Reader) (string, error) {
 		var v pk.VarLong
 		n, err := v.ReadFrom(r)
+		if err != nil {
+			return errCount(n), err
+		}
 		return fmt.Sprintf("%d %d", v, n), err
 	}}
 }
@@ -569,7 +596,7 @@ func rdField(t Ty, old *Val) reader {
 			dst, get := t.NewDec(old)
 			n, err := dst.ReadFrom(r)
 			if err != nil {
-				return "", err
+				return errCount(n), err
 			}
 			return fmt.Sprintf("%s %d", get().Show(false), n), nil
 		}}
@@ -644,6 +671,9 @@ func fields(o *hx.Out) {
 			checkReader(o, "fixedbitset", reader{name: "fixedbitset", spec: "fbs " + hx.Hex(old), run: func(rr io.Reader) (string, error) {
 				f := pk.FixedBitSet(append([]byte{}, old...))
 				n, err := f.ReadFrom(rr)
+				if err != nil {
+					return errCount(n), err
+				}
 				return fmt.Sprintf("%s %d", hx.Hex(f), n), err
 			}}, in, bounds)
 		}
@@ -651,9 +681,15 @@ func fields(o *hx.Out) {
 			spec: func([]byte) string { return "raw " + hx.Hex(content) },
 			run:  func(w io.Writer) error { _, err := pk.PluginMessageData(content).WriteTo(w); return err }})
 		if ok {
-			checkReader(o, "plugin", reader{name: "plugin", eofIsEnd: true, run: func(rr io.Reader) (string, error) {
+			checkReader(o, "plugin", reader{name: "plugin", spec: "plug", eofIsEnd: true, run: func(rr io.Reader) (string, error) {
 				var p pk.PluginMessageData
 				n, err := p.ReadFrom(rr)
+				if err != nil {
+					if int(n) != len(p) {
+						panic("PluginMessageData: count differs from the data kept")
+					}
+					return errCount(n), err
+				}
 				return fmt.Sprintf("%s %d", hx.Hex(p), n), err
 			}}, img, nil)
 		}
@@ -842,7 +878,7 @@ func bitstorage(o *hx.Out) {
 			dst := level.NewBitStorage(0, 0, nil)
 			n, err := dst.ReadFrom(rr)
 			if err != nil {
-				return "", err
+				return errCount(n), err
 			}
 			parts := make([]string, 0, len(dst.Raw()))
 			for _, x := range dst.Raw() {
@@ -886,15 +922,23 @@ type outer struct {
 func rdNBT(file bool, target string) reader {
 	spec := fmt.Sprintf("nbt %s %s", fmtName(file), target)
 	name := "nbt." + strings.SplitN(target, ":", 2)[0]
-	if target == "struct" || target == "field" {
+	if target == "struct" {
 		spec = ""
+	}
+	if target == "field" {
+		spec = "nbtf"
 	}
 	return reader{name: name, spec: spec, run: func(rd io.Reader) (string, error) {
 		if target == "field" {
 			var v any
 			n, err := pk.NBTField{V: &v, AllowUnknownFields: true}.ReadFrom(rd)
+			if err != nil {
+				return errCount(n), err
+			}
 			var sb strings.Builder
-			if err == nil {
+			if v == nil {
+				sb.WriteString("?nil") // ErrEND rule: a lone TAG_End leaves V untouched
+			} else {
 				c01x.CanonAny(&sb, v)
 			}
 			return fmt.Sprintf("%s %d", sb.String(), n), err
